@@ -284,6 +284,33 @@ def calls_in(node: ast.AST, name: Optional[str] = None) -> List[ast.Call]:
     return out
 
 
+def reaching_calls(fn: ast.AST, name: str, depth: int = 3) -> List[ast.Call]:
+    """Calls in `fn` that are calls of `name`, or calls of a method of the same class (`self.h(...)`) whose body reaches a call
+    of `name` through at most `depth` such helpers: a search or an update moved into a private helper is still found at the site
+    that triggers it."""
+    cls = enclosing_class(fn)
+    own = methods(cls) if cls is not None else {}
+
+    def reaches(f: ast.AST, d: int, seen) -> bool:
+        if f in seen or d < 0:
+            return False
+        seen.add(f)
+        for c in calls_in(f):
+            if call_name(c) == name:
+                return True
+            if isinstance(c.func, ast.Attribute) and is_self_attr(c.func) and c.func.attr in own and reaches(own[c.func.attr], d - 1, seen):
+                return True
+        return False
+    out = []
+    for c in calls_in(fn):
+        if call_name(c) == name:
+            out.append(c)
+        elif isinstance(c.func, ast.Attribute) and is_self_attr(c.func) and c.func.attr in own and own[c.func.attr] is not fn \
+                and reaches(own[c.func.attr], depth - 1, set()):
+            out.append(c)
+    return out
+
+
 def walk_no_nested_defs(node: ast.AST) -> Iterator[ast.AST]:
     """ast.walk that does not descend into nested function/class/lambda bodies."""
     stack = [node]
